@@ -1,6 +1,7 @@
 import StunVerif.Props.C03
 import StunVerif.Props.C03Write
 import StunVerif.Props.SrcFnIter
+import StunVerif.Props.SrcFnBuilder
 #print axioms StunVerif.C03.build_shape
 #print axioms StunVerif.C03.roundtrip
 #print axioms StunVerif.C03.typed_roundtrip
@@ -14,3 +15,13 @@ import StunVerif.Props.SrcFnIter
 #print axioms StunVerif.SrcFnIter.collect_eq
 #print axioms StunVerif.SrcFnIter.src_iter
 #print axioms StunVerif.SrcFnIter.src_iter_more_fuel
+#print axioms StunVerif.SrcFnBuilder.src_hasAttribute
+#print axioms StunVerif.SrcFnBuilder.src_hasAnyAttribute
+#print axioms StunVerif.SrcFnBuilder.src_addRawAttribute
+#print axioms StunVerif.SrcFnBuilder.src_addAttribute
+#print axioms StunVerif.SrcFnBuilder.src_addFingerprint
+#print axioms StunVerif.SrcFnBuilder.model_addFingerprint_refused
+#print axioms StunVerif.SrcFnBuilder.src_addMessageIntegrity_guard
+#print axioms StunVerif.SrcFnBuilder.src_integrityBytes
+#print axioms StunVerif.SrcFnBuilder.src_addMessageIntegrity
+#print axioms StunVerif.SrcFnBuilder.src_addFingerprint_full
